@@ -204,9 +204,27 @@ Print Assumptions C04_array_date_rules_refuted.
 
 (* array of flattened objects *)
 Theorem C04_array_flatten_refuted :
-  not_read_back (EE [] None []) (plain [97] (PArray None None (TObject true))).
+  not_read_back (EE [] None []) (plain [97] (PArray None None (TObject true None))).
 Proof. eexists. split; [vm_compute; reflexivity|]. vm_compute. discriminate. Qed.
 Print Assumptions C04_array_flatten_refuted.
+
+(* timestamp rules — "None Implemented": the writer emits an empty TimestampRules, the bounds are lost *)
+Theorem C04_timestamp_rules_refuted :
+  not_read_back (EE [] None []) (plain [97] (PSingle (TTimestamp (Some (TSR (Some 5%Z) None None None)) None))).
+Proof. eexists. split; [vm_compute; reflexivity|]. vm_compute. discriminate. Qed.
+Print Assumptions C04_timestamp_rules_refuted.
+
+(* object rules — minProperties / maxProperties compile to an empty constraint and are not read back *)
+Theorem C04_object_rules_refuted :
+  not_read_back (EE [] None []) (plain [97] (PSingle (TObject false (Some (OBR (Some 1) None))))).
+Proof. eexists. split; [vm_compute; reflexivity|]. vm_compute. discriminate. Qed.
+Print Assumptions C04_object_rules_refuted.
+
+(* float rules do not compile at all ("TODO: float rules not implemented") *)
+Theorem C04_float_rules_do_not_compile : forall env idx name req opt f64 l desc,
+  is_ok (write_prop env idx (P name req opt (PSingle (TFloat f64 true l)) desc)) = false.
+Proof. intros. reflexivity. Qed.
+Print Assumptions C04_float_rules_do_not_compile.
 
 (* map values: list rules of the item schema stay on the entry's value field and are not read back *)
 Theorem C04_map_item_listrules_refuted :
